@@ -131,6 +131,33 @@ class PKI:
         return pem(self.root)
 
 
+def resigned_with_hash(cert, signer_key, hash_name="sha1"):
+    """the same certificate signed again by `signer_key` over another digest (sha1 / md5 / sha384 / sha512): issuers choose their signature algorithm, and the verifier's
+    default parameters accept all of them (cryptography's CertificateBuilder refuses to SIGN with SHA-1, so the certificate is re-encoded with asn1crypto)"""
+    from asn1crypto import x509 as _ax, algos as _algos
+    from cryptography.hazmat.primitives.asymmetric import padding as _pad
+    H = {"sha1": hashes.SHA1, "md5": hashes.MD5, "sha384": hashes.SHA384, "sha512": hashes.SHA512, "sha224": hashes.SHA224}[hash_name]()
+    c = _ax.Certificate.load(der(cert))
+    tbs = c["tbs_certificate"]
+    if isinstance(signer_key, ec.EllipticCurvePrivateKey):
+        if hash_name == "md5":
+            return cert
+        alg = _algos.SignedDigestAlgorithm({"algorithm": hash_name + "_ecdsa"})
+    elif isinstance(signer_key, rsa.RSAPrivateKey):
+        alg = _algos.SignedDigestAlgorithm({"algorithm": hash_name + "_rsa", "parameters": None})
+    else:
+        return cert
+    tbs["signature"] = alg
+    c["signature_algorithm"] = alg
+    tbs_der = tbs.dump(force=True)
+    try:
+        sig = signer_key.sign(tbs_der, ec.ECDSA(H)) if isinstance(signer_key, ec.EllipticCurvePrivateKey) else signer_key.sign(tbs_der, _pad.PKCS1v15(), H)
+    except Exception:
+        return cert
+    c["signature_value"] = sig
+    return x509.load_der_x509_certificate(c.dump(force=True))
+
+
 def compressed_spki(cert, signer_key):
     """the same certificate with its EC subject key written as a COMPRESSED point (02/03 || x; RFC 5480 2.2 allows it and OpenSSL reads it), signed again by `signer_key`
     with the certificate's own signature algorithm: the same key in another valid SubjectPublicKeyInfo encoding.  Certificates over other key types come back unchanged."""
@@ -346,6 +373,7 @@ def build(s):
     pki = PKI(tag=s.pki_tag, n_inter=s.n_inter, **k.get("pki_kw", {}))
     pki.extra_leaf_exts = tuple(k.get("leaf_extra_exts", ()))
     pki.leaf_aki_issuer_serial = bool(k.get("leaf_aki_issuer_serial"))
+    pki.ceremony = {"cdh": cdh, "ad": ad}          # (for x5c_override hooks that need to build statements about THIS ceremony)
     builtin = {"apple": [], "android-key": [], "android-safetynet": []}
     stmt = {}
     fmt = s.fmt
@@ -362,6 +390,15 @@ def build(s):
             leaf = compressed_spki(leaf, k.get("leaf_signer") or pki.issuer_key)
         if "x5c_override" in k:
             return k["x5c_override"](pki, leaf)
+        if k.get("chain_sig_hash"):
+            # leaf and intermediates signed over another digest than SHA-256 (the anchors stay as they are)
+            leaf = resigned_with_hash(leaf, k.get("leaf_signer") or pki.issuer_key, k["chain_sig_hash"])
+            saved = list(pki.inters)
+            try:
+                pki.inters = [resigned_with_hash(c_, pki.root_key if i_ == 0 else pki.inter_keys[i_ - 1], k["chain_sig_hash"]) for i_, c_ in enumerate(saved)]
+                return pki.chain_der(leaf, order=k.get("chain_order", "normal"), with_root=with_root, extra=chain_extra)
+            finally:
+                pki.inters = saved
         return pki.chain_der(leaf, order=k.get("chain_order", "normal"), with_root=with_root, extra=chain_extra)
 
     if fmt == "none":
